@@ -582,8 +582,8 @@ pub fn run_check(prop: &str, opts: &Opts) -> i32 {
     let n_seeded = opts.runs.unwrap_or(match (prop, quick) {
         ("C13", true) => 6_000,
         ("C14", true) => 6_000,
-        ("C13", false) => 1_000_000,
-        (_, false) => 1_000_000,
+        ("C13", false) => 300_000,
+        (_, false) => 800_000,
         _ => 1000,
     });
     let batch_seed = sub_seed(opts.seed, &format!("r1csim/{}", prop));
